@@ -1173,7 +1173,9 @@ func (se *stanzaEncoder) EncodeToken(t xml.Token) error {
 	case xml.StartElement:
 		se.depth++
 		// Add required attributes if missing:
-		if se.depth == 1 && isStanzaEmptySpace(tok.Name) {
+		// The stream's own content namespace counts as well (a component's stream
+		// is qualified by neither of the two core namespaces).
+		if se.depth == 1 && (isStanzaEmptySpace(tok.Name) || isStanzaEmptySpace(xml.Name{Local: tok.Name.Local}) && tok.Name.Space == se.ns) {
 			if tok.Name.Space == "" {
 				tok.Name.Space = se.ns
 			}
